@@ -84,6 +84,15 @@ pub fn c08(o: &Opts) -> Outcome {
             if let Some(w) = c08_batch(&recs, k, 2, 3, true, 2, mem) { return Outcome { cases, witness: Some(w) }; }
         }
     }
+    // records of exactly k, k+1 and k-1 bases (one window, two windows, none), also after an ambiguous byte
+    for k in [4usize, 7, 15] {
+        let base: Vec<u8> = (0..k + 1).map(|i| b"ACGGTCATTGACCAGTTAGG"[i % 20]).collect();
+        let recs: Vec<Vec<u8>> = vec![base[..k].to_vec(), base.clone(), base[..k - 1].to_vec(), [b"N".to_vec(), base[..k].to_vec(), b"N".to_vec()].concat(), base[..k].to_vec()];
+        for norm in [false, true] {
+            cases += recs.len() as u64;
+            if let Some(w) = c08_batch(&recs, k, 2, 4, norm, 2, 6.0) { return Outcome { cases, witness: Some(w) }; }
+        }
+    }
     // multi-member gzip input; a counting pass that holds only records without any k-mer, followed by more records
     {
         let recs: Vec<Vec<u8>> = vec![b"ACGTACGTTTGACCAGG".to_vec(), b"GGATCCATTGAC".to_vec(), b"ACGTACGTTTGACCAGG".to_vec(), b"TTGACCATGG".to_vec(), b"AC".to_vec()];
@@ -93,6 +102,21 @@ pub fn c08(o: &Opts) -> Outcome {
         for (threads, mem) in [(1usize, 5e-9f64), (1, 1e-8), (2, 5e-9)] {
             cases += 1;
             if let Some(w) = c08_batch(&recs, 4, 4, 4, false, threads, mem) { return Outcome { cases, witness: Some(w) }; }
+        }
+    }
+    // multiplicity / bin size exactly equal to the bin count (the first value that must be clamped into the last bin), one below, one above
+    for bc in [1usize, 2, 3, 6] {
+        for bs in [1usize, 2, 5] {
+            let k = 7usize;
+            let mut recs: Vec<Vec<u8>> = Vec::new();
+            for (i, c) in [bs * bc, bs * bc + 1, (bs * bc).saturating_sub(1)].iter().enumerate() {
+                if *c == 0 { continue; }
+                recs.push(vec![b"ACG"[i]; c + k - 1]);
+            }
+            for norm in [false, true] {
+                cases += 1;
+                if let Some(w) = c08_batch(&recs, k, bs, bc, norm, 2, 6.0) { return Outcome { cases, witness: Some(w) }; }
+            }
         }
     }
     // multiplicities that are exact multiples of the bin size (bin boundaries), many bins, multi-chunk counting
